@@ -1,4 +1,5 @@
 import RdfModel.Props.C16TtlDocO
+import RdfModel.Props.C16TtlDocOSites
 #print axioms RdfModel.C16TtlDocO.doc_erasure
 #print axioms RdfModel.C16TtlDocO.doc_capture_on_eq_off
 #print axioms RdfModel.C16TtlDocO.next_erasure
@@ -7,3 +8,8 @@ import RdfModel.Props.C16TtlDocO
 #print axioms RdfModel.C16TtlDocO.doc_commit_discipline_text
 #print axioms RdfModel.C16TtlDocO.doc_ranges_inside
 #print axioms RdfModel.C16TtlDocO.range_offsets_inside
+#print axioms RdfModel.C16TtlDocO.doc_error_offset_inside
+#print axioms RdfModel.C16TtlDocO.doc_error_position_inside
+#print axioms RdfModel.C16TtlDocO.byte_accounting
+#print axioms RdfModel.C16TtlDocO.commit_sites_T2
+#print axioms RdfModel.C16TtlDocO.handback_offset_short_legacy
